@@ -5952,6 +5952,35 @@ void psX509FreeDNStruct(x509DNattributes_t *dn, psPool_t *allocPool)
     There is nothing for the caller to free at the completion of this
     routine.
  */
+/* Same certificate: identical signature algorithm, signature value and
+   TBSCertificate (compared via its digest, or byte-wise where the TBS is
+   kept unhashed, e.g. Ed25519). */
+static int32 x509IsSameCert(const psX509Cert_t *a, const psX509Cert_t *b)
+{
+    if (a->sigAlgorithm != b->sigAlgorithm
+        || a->signatureLen == 0 || a->signatureLen != b->signatureLen
+        || memcmpct(a->signature, b->signature, a->signatureLen) != 0)
+    {
+        return 0;
+    }
+#  if defined(USE_ED25519) || defined(USE_ROT_ECC) || defined(USE_ROT_RSA) || (defined(USE_CL_RSA) && defined(USE_PKCS1_PSS))
+    if (a->tbsCertStart != NULL || b->tbsCertStart != NULL)
+    {
+        if (a->tbsCertStart == NULL || b->tbsCertStart == NULL
+            || a->tbsCertLen != b->tbsCertLen)
+        {
+            return 0;
+        }
+        return memcmpct(a->tbsCertStart, b->tbsCertStart, a->tbsCertLen) == 0;
+    }
+#  endif
+    if (a->sigHashLen == 0 || a->sigHashLen != b->sigHashLen)
+    {
+        return 0;
+    }
+    return memcmpct(a->sigHash, b->sigHash, a->sigHashLen) == 0;
+}
+
 int32 psX509AuthenticateCert(psPool_t *pool, psX509Cert_t *subjectCert,
     psX509Cert_t *issuerCert,  psX509Cert_t **foundIssuer,
     void *hwCtx, void *poolUserPtr)
@@ -6044,8 +6073,7 @@ int32 psX509AuthenticateCert(psPool_t *pool, psX509Cert_t *subjectCert,
                 Valid CA to load: i2 or root
                 Invalid CA to load: l or i1
              */
-            if (sc->signatureLen == ic->signatureLen
-                && memcmpct(sc->signature, ic->signature, sc->signatureLen) == 0)
+            if (x509IsSameCert(sc, ic))
             {
                 /* Skip some of the signature and issuer checks */
                 goto L_INTERMEDIATE_ROOT;
